@@ -1,7 +1,8 @@
 """C06 -- deep copies of a tree are independent of the original.
 
-E1: BFS over histories of three kinds of event on up to 3 live trees, once per library (the first event of a
-history, ("lib", name), says which library the first tree is parsed from; a history without it is on `flat`):
+E1: BFS over histories of three kinds of event (copy; edit, of one tree or from one tree into another; obs) on up
+to 3 live trees, once per library (the first event of a history, ("lib", name), says which library the first tree
+is parsed from; a history without it is on `flat`):
 
   flat   top-level classes only: component types, extends, modifications
   pkg    packages: a package-qualified component type (Lib.R r) and extends (extends Lib.Sub.Deep), a qualified
@@ -12,13 +13,17 @@ history, ("lib", name), says which library the first tree is parsed from; a hist
   copy(i)            tree_n = copy.deepcopy(tree_i)
   edit(i, op, K)     add/remove symbol/equation/class through the AST API; replace_class = remove_class(K) +
                      add_class(a different class of the same name, a new object no earlier copy or lookup saw)
-  edit(i, graft_class, K, j)   transplant: x = tree_j.find_class(K) -- the public lookup hands out a copy of the
-                     class -- and <package of K in tree_i>.add_class(x), j != i: tree i's K becomes what tree j's K
-                     is at that moment (added if tree i has no K any more), under the same name.  The one edit
-                     whose argument comes out of a live tree instead of being built or parsed for the purpose: it
-                     must change tree i only (tree j and all others keep what they had) and later edits of either
-                     tree must not reach the other through the transplanted class.  In tree i's edit list it is
-                     recorded together with tree j's edit list at that moment.
+  edit(i, graft_class, K, j)   transplant, j != i: x = tree_j.find_class(K) -- the public lookup hands out a copy
+                     of the class -- and <package W of tree_i>.add_class(x), x keeping its name.  W per library
+                     (LIBS[..]["graft_to"]): flat: the root, so tree i's K becomes what tree j's K is at that
+                     moment (added if tree i has no K any more); pkg: package P, i.e. for Lib.R / Lib.Sub.Deep a
+                     package other than the one x was found in, where x shadows the import of that name.  K out
+                     of LIBS[..]["graft"]: an edit class (carries content) and a class that looks up the edit
+                     classes from where it stands (carries scope; flat quick: Mid, thorough: + Base, Top).  The
+                     one edit whose argument comes out of a live tree instead of being built or parsed for the
+                     purpose: it must change tree i only (tree j and all others keep what they had) and later
+                     edits of either tree must not reach the other through the transplanted class.  In tree
+                     i's edit list it is recorded together with tree j's edit list at that moment.
   obs(i, route, K)   flatten class K ('*' = every class, one after the other) of the *live* tree i through
                      route in {inplace: tree.flatten(tree_i, K); sympy / xml: the backend's generate(tree_i, K),
                      which deep-copies the tree and flattens the copy} -- the result is compared with the
@@ -40,7 +45,8 @@ history.
 Bounds are per library and tier (LIBS[..]["bounds"]: history length, deviations = edit + obs events, edit events;
 several entries = one search each, the union is explored); the bound travels in the lib event so that the
 workers know it.  Quick gives the two-edit histories to `flat` (edits on the component-type class and the base
-class; thorough adds the top model) and one-edit histories with the in-place route only to `pkg`.
+class; thorough adds the top model) and one-edit histories with the in-place route only to `pkg`.  A graft is an
+edit event (it counts as edit and as deviation).
 
 An obs event is offered wherever another event can still follow it within the length bound (as the last event
 of a longest history it would only be followed by the final observations below, which are made anyway).
@@ -135,16 +141,26 @@ ALL_ROUTES = ["inplace", "sympy", "xml"]  # routes of obs events (xml = deepcopy
 
 # Per library: `edit`: classes the edits act on (quick / thorough), `flat`: order of obs(i, route, '*') -- the class
 # that exists only after add_class first, the class that reaches every other class last --, `add_to`: the class
-# add_class adds `Extra` to ('' = the root), `replace`: the different class of the same name replace_class puts in
-# (same interface, so the classes using it still flatten; other start / parameter values, one more variable and
-# equation), `routes`: routes of obs events, `bounds`: one search per entry (history length, deviations = edit + obs
-# events, edit events); the histories explored are the union.
+# add_class adds `Extra` to ('' = the root), `graft`: the classes that are transplanted -- one that carries content (an
+# edit class: what arrives differs from what was there when the trees differ in it) and one that carries scope (it
+# looks up other classes, among them the edit classes, from where it stands; flat quick: Mid, which no edit touches, so
+# that only where it resolves its names and what its transplantation does to the other tree can show) --, `graft_to`:
+# the package of the receiving tree a graft adds the class found in the other tree to -- flat: the root, the only
+# package there is, so the class takes the place of the receiving tree's own class of that name; pkg: P, for Lib.R and
+# Lib.Sub.Deep a package other than the one the class was found in, where it -- keeping its name -- shadows P's
+# qualified / unqualified import of that name (R a, Deep dd of P.M then are instances of the transplanted class,
+# Lib.R r and extends Lib.Sub.Deep are not), for P.M its own package --, `replace`: the different class of the same
+# name replace_class puts in (same interface, so the classes using it still flatten; other start / parameter values,
+# one more variable and equation), `routes`: routes of obs events, `bounds`: one search per entry (history length,
+# deviations = edit + obs events, edit events); the histories explored are the union.
 LIBS = {
     "flat": {
         "text": LIB,
         "edit": {"quick": ["Leaf", "Base"], "thorough": ["Leaf", "Base", "Top"]},
         "flat": ["Extra", "Leaf", "Base", "Mid", "Top"],
         "add_to": "",
+        "graft": {"quick": ["Leaf", "Mid"], "thorough": ["Leaf", "Base", "Mid", "Top"]},
+        "graft_to": {"Leaf": "", "Base": "", "Mid": "", "Top": ""},
         "replace": {
             "Leaf": "model Leaf Real x(start = 7); parameter Real k = 8; Real w; equation der(x) = -k * x; w = 2 * x; end Leaf;",
             "Base": "model Base parameter Real p = 6; Real b; Real c; equation b = 2 * p; c = b; end Base;",
@@ -158,6 +174,8 @@ LIBS = {
         "edit": {"quick": ["Lib.R", "Lib.Sub.Deep", "P.M"], "thorough": ["Lib.R", "Lib.Sub.Deep", "P.M"]},
         "flat": ["Lib.Extra", "Lib.R", "Lib.Sub.Deep", "P.M"],
         "add_to": "Lib",
+        "graft": {"quick": ["Lib.R", "Lib.Sub.Deep", "P.M"], "thorough": ["Lib.R", "Lib.Sub.Deep", "P.M"]},
+        "graft_to": {"Lib.R": "P", "Lib.Sub.Deep": "P", "P.M": "P"},
         "replace": {
             "Lib.R": "model R Real v(start = 7); parameter Real g = 8; Real w; equation der(v) = -g * v; w = 2 * v; end R;",
             "Lib.Sub.Deep": "model Deep parameter Real p = 6; R ri; Real b; Real c; equation b = 2 * p * ri.v; c = b; end Deep;",
@@ -247,9 +265,9 @@ def apply_edit(tree, op, cls, serial, lib="flat", donor=None):
     from pymoca import ast, parser
 
     if op == GRAFT:
-        where = _resolve(tree, cls.rpartition(".")[0])
+        where = _resolve(tree, LIBS[lib]["graft_to"][cls])
         if where is not None and donor is not None:
-            where.add_class(donor)  # keeps its name: takes the place of tree's own K if that is still there
+            where.add_class(donor)  # keeps its name: takes the place of a class of that name that is there already
         return
     if op == "add_class":
         where = _resolve(tree, LIBS[lib]["add_to"])
@@ -452,7 +470,7 @@ def enabled(lib, tier, bound, n_trees, n_events, n_edit_events, n_obs):
                 evs.append(("edit", i, op, cls))
         for i in range(n_trees):
             for j in range(n_trees):
-                for cls in LIBS[lib]["edit"][tier] if j != i else []:
+                for cls in LIBS[lib]["graft"][tier] if j != i else []:
                     evs.append(("edit", i, GRAFT, cls, j))
     if n_obs < MAX_OBS and n_events + 1 < depth:
         for i in range(n_trees):
@@ -572,6 +590,7 @@ def run(ctx):
                     "obs_events": MAX_OBS,
                     "trees": MAX_TREES,
                     "edit_classes": LIBS[lib]["edit"][ctx.tier],
+                    "graft_into": {k: LIBS[lib]["graft_to"][k] or "<root>" for k in LIBS[lib]["graft"][ctx.tier]},
                     "obs_routes": LIBS[lib]["routes"][ctx.tier],
                 }
                 for lib in LIB_ORDER
@@ -581,14 +600,19 @@ def run(ctx):
             "nested two levels deep): all histories within one of the library's bounds (length, deviations = edit or obs "
             "events, edits; <= %d obs, an obs event only where another event can follow it within the length) over "
             "{deepcopy(tree_i)} x {add/remove symbol, add/remove equation, remove class, replace class by a different class "
-            "of the same name (remove_class + add_class) on the library's edit classes, add class} x {obs: every class of the "
-            "live tree_i through the library's routes out of tree.flatten in place (one ComponentRef object per class name "
-            "for the whole history) / sympy generate / xml generate, checked and kept in the history} on up to %d trees; "
+            "of the same name (remove_class + add_class) on the library's edit classes, add class, graft class: add_class of "
+            "the copy tree_j.find_class(K) hands out, j != i, K one of the library's graft classes, under its own name, to a "
+            "package of tree_i (flat: the root, in the place of tree_i's K; pkg: P, where Lib.R / Lib.Sub.Deep shadow the "
+            "import of that name)} x {obs: every class of the live tree_i through the library's routes out of tree.flatten in "
+            "place (one ComponentRef object per class name for the whole history) / sympy generate / xml generate, checked "
+            "and kept in the history} on up to %d trees; "
             "after every copy / edit event every tree is observed on a replay of its own (flatten of a deep copy; every "
             "route an earlier obs event went through; thorough: flatten in place always); reference = fresh parse carrying "
-            "only that tree's edits, same route, computed up front; state = library + per-tree edit lists + copy ancestry + "
-            "log of obs events (tree, route, tree's edit count, number of trees at that time) + joint structural "
-            "fingerprint of the live trees" % (MAX_OBS, MAX_TREES),
+            "only that tree's edits (a graft: class K moved with remove_class + add_class out of a second fresh parse that "
+            "carries the source tree's edit list of that moment), same route, computed up front for every edit list reachable "
+            "within the bound; state = library + per-tree edit lists + copy ancestry + log of obs events (tree, route, "
+            "tree's edit count, number of trees at that time) + joint structural fingerprint of the live trees"
+            % (MAX_OBS, MAX_TREES),
         }
     )
     ctx.assumptions.append("edits are applied through the AST API exactly as test/ast_test.py does")
@@ -609,7 +633,7 @@ def replay(case):
         elif ev[0] == "edit":
             per_tree[ev[1]] = per_tree[ev[1]] + (entry(ev, per_tree),)
             lists.add(per_tree[ev[1]])
-    prepare_expected(lib, sorted({p[:n] for p in lists for n in range(len(p) + 1)}))
+    prepare_expected(lib, sorted({p[:n] for p in lists for n in range(len(p) + 1)}, key=repr))
     ok = True
     for n in range(len(hist)):
         if hist[n][0] == "lib":
